@@ -27,6 +27,7 @@ type Batch struct {
 	RaceProp        string // property a race report in this batch is filed under (default C17)
 	RaceOwn         string // ... but only if its signature mentions this substring
 	Prepare         func(overlay string)
+	Family          bool // needs the generated binding family (generator built from /repo's current tree)
 	Real, Stub      []string
 }
 
@@ -110,6 +111,21 @@ func init() {
 			"the race detector keeps a bounded access history per memory word; runs are short to make eviction unlikely",
 			"sampled exploration; a clean batch is evidence, not proof",
 		},
+	})
+}
+
+var seamsS4 = Seams{}
+
+func init() {
+	reg(&PropSpec{
+		ID: "C02",
+		Batches: []Batch{
+			{Pkg: "scen/s4", Scen: "rpc", Cfg: "", Seams: seamsS4, Family: true, NoRace: true, Quick: 3000, Thorough: 1000000, ThoroughSecs: 1500,
+				Real: []string{"generated clients and server adapters (generated at check time by the generator from /repo's working tree)", "v2/restli client path (newRequest, formatQueryUrl, Do, DoAndUnmarshal), v2/restli handler/router/Register* adapters", "v2/restlicodec readers and writers, batchkeyset, generated marshalers", "net/http: Client above the transport, Request.Write / ReadRequest / Response.Write / ReadResponse, ServeMux"},
+				Stub: []string{"TCP and net/http's per-connection server loop (simulated transport)", "resource implementations (generated MockResource driven by the choice stream)", "goroutine scheduling (token kernel)"}},
+		},
+		Rule:   "each run draws 1-3 resources of the binding family, a mounting, a resolver base, strict/lenient client, 1-4 caller tasks x 1-4 calls (method and every argument by reflection from the choice stream, strings over an alphabet of all ROR2/JSON/URL metacharacters), the resource's reply, and the schedule. A case is distinct by (resource, method, mounting) of the first call; non-trivial always.",
+		Assume: []string{"the binding family (family/family.manifest.json) bounds the 'programs' quantifier", "keep-alive, chunked transfer, 100-continue and HTTP/2 are not exercised (transport stub)", "sampled exploration"},
 	})
 }
 
